@@ -15,7 +15,8 @@ EXPLANATION = (
     "coordinates, exclude the diagonal and transpose component blocks; (R08.3) option forwarding along the assembly call chains: a "
     "callee parameter named like a caller parameter receives that parameter (frozen exceptions with reasons); (R08.4) update == "
     "fresh construction: update() writes the slice and source expression that __init__ uses, and no variable depending on an "
-    "updatable input is precomputed; (R08.5) decision-table completeness of assemble_entries_vec over (layout, format, dim).")
+    "updatable input is precomputed; (R08.5) decision-table completeness of assemble_entries_vec over (layout, format, dim): "
+    "the layout permutation precedes every exit of the multi-level path.")
 DOES_NOT_DECIDE = "equality of the assembled operators to rounding; OpenMP runtime behaviour beyond the write discipline"
 TECHNIQUE = "custom AST rules on Python + lowered Cython: parallel-region store classification, guard dominance, mirror comparison, parameter forwarding, emitted-code agreement"
 
